@@ -5,11 +5,13 @@ Import ListNotations.
 Local Open Scope N_scope.
 
 Lemma key_eqb_true : forall a b, key_eqb a b = true <-> a = b.
-Proof. intros a b; unfold key_eqb; destruct (key_eq_dec a b); split; congruence. Qed.
+Proof.
+  intros a b; destruct a, b; cbn; try rewrite N.eqb_eq; split; intros H; try discriminate; try congruence; auto.
+Qed.
 Lemma key_eqb_refl : forall a, key_eqb a a = true.
 Proof. intros; now apply key_eqb_true. Qed.
 Lemma key_eqb_false : forall a b, a <> b -> key_eqb a b = false.
-Proof. intros a b H; unfold key_eqb; destruct (key_eq_dec a b); congruence. Qed.
+Proof. intros a b H. destruct (key_eqb a b) eqn:E; auto. apply key_eqb_true in E. contradiction. Qed.
 
 (* ---- last write wins ---- *)
 Fixpoint last_val (b : list bop) (k : key) : option (option N) :=
